@@ -3,7 +3,7 @@
    underlying writer is a byte prefix of that log file - and replays, behind the intact older files, to the records
    completely contained in it (with the synchronous log: every acknowledged record, since its Flush came first; with
    the asynchronous log: a prefix of the appended records). *)
-From GoSST Require Import Base.Bytes RecordIO.Format RecordIO.BufWriter RecordIO.BufWriterFacts Wal.Wal Wal.WalFacts Wal.LogProgram.
+From GoSST Require Import Base.Bytes RecordIO.Format RecordIO.Writer RecordIO.WriteReadFacts RecordIO.BufWriter RecordIO.BufWriterFacts Wal.Wal Wal.WalFacts Wal.LogProgram.
 From Coq Require Import Lia.
 Local Open Scope N_scope.
 
@@ -97,3 +97,94 @@ Proof.
   rewrite handed_app. cbn [handed]. rewrite app_nil_r. reflexivity.
 Qed.
 Print Assumptions sync_append_reaches_the_file.
+
+(* ---- the files of a whole session: [log_groups] (the appends of every log file with their flags, which the
+   correspondence feeds to the write-buffer model file by file) are exactly the files of the appender model *)
+Section Groups.
+  Variable c : codec.
+  Hypothesis codec_ok : forall x, decomp c (comp c x) = Ok x.
+  Hypothesis ctype_ok : ctype c <= 3.
+
+  Lemma fold_failed max : forall ops a, J a -> a_failed a = true -> a_failed (fold_left (app_step c max) ops a) = true.
+  Proof.
+    induction ops as [|o ops IH]; intros a Hj Hf; [exact Hf|].
+    cbn [fold_left]. apply IH; [apply J_step; exact Hj|apply failed_step; assumption].
+  Qed.
+
+  Lemma log_groups_agree max : forall ops syncs a gs cur cs done,
+    ainv c a gs cur -> J a -> map snd cs = cur -> map (map snd) done = gs ->
+    Forall (wop_ok c) ops -> a_failed (fold_left (app_step c max) ops a) = false ->
+    map (fun g => wal_file c (map snd g)) (log_groups c max ops syncs (w_size (a_cur a)) cs done)
+    = map snd (app_files (fold_left (app_step c max) ops a)).
+  Proof.
+    induction ops as [|o ops IH]; intros syncs a gs cur cs done Hinv Hj Hcs Hdone Hok Hnf.
+    - cbn [log_groups fold_left]. destruct Hinv as (Hs & Hf & Hn & Hi).
+      destruct (inv_close c ctype_ok _ _ Hi) as [Hc _].
+      unfold app_files. rewrite !map_app. cbn [map snd]. rewrite Hs, Hc, <- Hdone, <- Hcs, map_map.
+      rewrite <- wal_file_encs. reflexivity.
+    - inversion Hok as [|o' l' Ho Hok']; subst o' l'.
+      cbn [fold_left] in *.
+      assert (Hstep : a_failed (app_step c max a o) = false).
+      { destruct (a_failed (app_step c max a o)) eqn:E; [|reflexivity].
+        rewrite (fold_failed max ops _ (J_step c max a o Hj) E) in Hnf. discriminate Hnf. }
+      destruct o as [r|]; cbn [log_groups app_step] in *.
+      + unfold app_append in *. cbv zeta in *.
+        destruct (max <? w_size (a_cur a) + lenN r) eqn:Ecmp.
+        * (* rotation first *)
+          destruct (a_failed (app_rotate c a)) eqn:Er; [cbv beta iota in Hstep; rewrite Er in Hstep; discriminate Hstep|].
+          pose proof (ainv_rotate c ctype_ok a gs cur Hinv Er) as Hr.
+          pose proof (ainv_write c ctype_ok _ _ _ r Hr Ho) as Hw. cbn [app] in Hw.
+          set (a2 := mkApp (a_closed (app_rotate c a)) (a_num (app_rotate c a))
+                           (fst (w_write c (Some r) (a_cur (app_rotate c a)))) false) in *.
+          specialize (IH (tl syncs) a2 (gs ++ [cur]) [r]
+                         [(match syncs with b :: _ => b | [] => false end, r)] (done ++ [cs]) Hw).
+          assert (Hsz : w_size (a_cur a2) = 8 + lenN (enc_rec c (Some r))).
+          { pose proof Hw as Hw'. destruct Hw' as (_ & _ & _ & Hi1). destruct Hi1 as (_ & Hc1 & _).
+            unfold w_size. rewrite Hc1. cbn [map encs flat_map]. rewrite app_nil_r. reflexivity. }
+          rewrite Hsz in IH. apply IH.
+          -- unfold J. subst a2. cbn [a_failed]. discriminate.
+          -- reflexivity.
+          -- rewrite map_app, Hdone. cbn [map]. rewrite Hcs. reflexivity.
+          -- exact Hok'.
+          -- exact Hnf.
+        * cbv beta iota in Hstep. destruct (a_failed a) eqn:Ea; [cbv beta iota in Hstep; rewrite Ea in Hstep; discriminate Hstep|].
+          pose proof (ainv_write c ctype_ok a gs cur r Hinv Ho) as Hw.
+          set (a2 := mkApp (a_closed a) (a_num a) (fst (w_write c (Some r) (a_cur a))) false) in *.
+          specialize (IH (tl syncs) a2 gs (cur ++ [r])
+                         (cs ++ [(match syncs with b :: _ => b | [] => false end, r)]) done Hw).
+          assert (Hsz : w_size (a_cur a2) = w_size (a_cur a) + lenN (enc_rec c (Some r))).
+          { subst a2. cbn [a_cur]. rewrite fst_w_write. reflexivity. }
+          rewrite Hsz in IH. apply IH.
+          -- unfold J. subst a2. cbn [a_failed]. discriminate.
+          -- rewrite map_app, Hcs. reflexivity.
+          -- exact Hdone.
+          -- exact Hok'.
+          -- exact Hnf.
+      + (* forced rotation *)
+        pose proof (ainv_rotate c ctype_ok a gs cur Hinv Hstep) as Hr.
+        specialize (IH syncs (app_rotate c a) (gs ++ [cur]) [] [] (done ++ [cs]) Hr).
+        assert (Hsz : w_size (a_cur (app_rotate c a)) = 8).
+        { unfold app_rotate in *. cbv zeta in *.
+          destruct (wal_limit <=? a_num a + 1); [cbn [a_failed] in Hstep; discriminate Hstep|reflexivity]. }
+        rewrite Hsz in IH. apply IH.
+        * apply J_rotate. exact Hj.
+        * reflexivity.
+        * rewrite map_app, Hdone. cbn [map]. rewrite Hcs. reflexivity.
+        * exact Hok'.
+        * exact Hnf.
+  Qed.
+
+  (* from a fresh appender *)
+  Theorem log_groups_are_the_files (max : N) (ops : list wop) (syncs : list bool) :
+    Forall (wop_ok c) ops -> a_failed (run c max ops) = false ->
+    map (fun g => wal_file c (map snd g)) (log_groups c max ops syncs 8 [] [])
+    = map snd (app_files (run c max ops)).
+  Proof.
+    intros Hok Hnf. unfold run.
+    apply (log_groups_agree max ops syncs (app_new c) [] [] [] []); try reflexivity; try assumption.
+    - unfold app_new, ainv. cbn [a_closed a_num a_cur map length seq].
+      split; [reflexivity|]. split; [reflexivity|]. split; [reflexivity|]. apply inv_open.
+    - unfold J, app_new. cbn [a_failed]. discriminate.
+  Qed.
+End Groups.
+Print Assumptions log_groups_are_the_files.
